@@ -894,6 +894,10 @@ fn split_text(s: &str) -> Vec<String> {
 
         if c == '\n' && is_comment {
             is_comment = false;
+            // The text before the comment is a run of its own, so that an
+            // identifier directly followed by the comment is still substituted.
+            ret.push(x);
+            x = String::from("");
             x.push(c);
         } else if is_comment {
             continue;
